@@ -787,15 +787,15 @@ def run_impl(parts, cases_lines, rings, timeout=1500):
 
 
 def run_parallel(binary, lines, timeout=1500, nproc=12):
-    """run a line-protocol driver on `lines`, split into contiguous chunks over nproc processes (order kept)"""
+    """run a line-protocol driver on `lines` over nproc processes; line i goes to process i mod nproc (the slow cases -- the
+    big-number rings, whose model computes on unary-binary positives -- are contiguous in the case list: striding spreads them)"""
     import subprocess
     if len(lines) < 2000:
         return vf.run_lines(binary, "".join(l + "\n" for l in lines), timeout=timeout)
-    n = (len(lines) + nproc - 1) // nproc
     procs = []
-    for k in range(0, len(lines), n):
+    for k in range(nproc):
         pr = subprocess.Popen([binary], stdin=subprocess.PIPE, stdout=subprocess.PIPE, stderr=subprocess.PIPE, universal_newlines=True)
-        procs.append((pr, "".join(l + "\n" for l in lines[k:k + n])))
+        procs.append((pr, "".join(l + "\n" for l in lines[k::nproc])))
     import threading
     res = [None] * len(procs)
 
@@ -813,7 +813,12 @@ def run_parallel(binary, lines, timeout=1500, nproc=12):
     for t in ths:
         t.join()
     rc = max(r[0] for r in res)
-    out = [l for r in res for l in r[1]]
+    out = [None] * len(lines)
+    for k, r in enumerate(res):
+        n = len(lines[k::nproc])
+        if len(r[1]) != n:
+            return (rc or 99), [], "".join(x[2] for x in res)
+        out[k::nproc] = r[1]
     return rc, out, "".join(r[2] for r in res)
 
 
